@@ -146,7 +146,7 @@ func (c Float32) POW(a, k Float32) Float32 {
 /* -------------------------------------------------------------------------- */
 func (c Float32) SQRT(a Float32) Float32 {
   x := a.GetFloat64()
-  c.SetFloat64(math.Sqrt(x))
+  c.SetFloat64(math.Pow(x, 0.5))
   return c
 }
 /* -------------------------------------------------------------------------- */
